@@ -1,7 +1,8 @@
 SPECIFICATION GenSpec
 CONSTANTS
   MaxB = 2
-  MaxW = 1
+  MinW = 2
+  MaxW = 2
   NFiles = 1
   SecondHandle = FALSE
   MaxSize = 3
